@@ -234,6 +234,11 @@ func condFacts(cond ssa.Value, truth bool, bf *blockFacts) {
 					bf.ints = append(bf.ints, intFact{k, c})
 				case token.GTR:
 					bf.ints = append(bf.ints, intFact{k, c + 1})
+				case token.NEQ:
+					// x != 0 for a value known to be non-negative means x >= 1
+					if c == 0 && curFI.intLB(x, curBlock, 0) >= 0 {
+						bf.ints = append(bf.ints, intFact{k, 1})
+					}
 				}
 				var deps, calls []ssa.Value
 				lenDeps(cond, 0, &deps, &calls)
